@@ -12,7 +12,7 @@ from pathlib import Path
 from tcv import gen, pipeline as pl
 from tcv.core import VERIF
 
-RULE = ('golden corpus corpus/c12_golden.jsonl (474 specs / ~1600 tasks captured at the pinned commit: every data class, group '
+RULE = ('golden corpus corpus/c12_golden.jsonl (531 specs / ~1800 tasks captured at the pinned commit: every data class, group '
         'form none/single/multi-level/module-derived, namespace depth 0-3, adversarial and plain values, placeholders, Path '
         'parameters, name mode) replayed on model and implementation, plus seeded generated specs of the same family; '
         'compared: key, data path, run-info path, log path (literal), files on disk after computing; '
